@@ -512,8 +512,8 @@ class AbstractDateTime(AnyAtomicType):
 
                 td = datetime.timedelta(days=-days, seconds=delta.seconds,
                                         microseconds=delta.microseconds)
-                if not td:
-                    dt = datetime.datetime(4 if isleap(year + 1) else 6, 1, 1)
+                if not days:
+                    dt = datetime.datetime(4 if isleap(year + 1) else 6, 1, 1) + td
                     year += 1
                 else:
                     dt = datetime.datetime(5 if isleap(year + 1) else 7, 1, 1) + td
